@@ -1,6 +1,7 @@
 package aesgcm
 
 import (
+	tinkpb "github.com/tink-crypto/tink-go/v2/proto/tink_go_proto"
 	"crypto/aes"
 	"crypto/cipher"
 
@@ -58,3 +59,20 @@ func VerifH_c19_aesgcm() {
 	a, _, _ := build()
 	verifh.CheckAEADNoWrite(a)
 }
+
+func VerifH_serial_aesgcm() {
+	kind := verifrt.Choice("variant", 3)
+	v := [...]Variant{VariantTink, VariantCrunchy, VariantNoPrefix}[kind]
+	pk := kind
+	ks := [...]int{16, 32}[verifrt.Choice("ks", 2)]
+	id := verifrt.Uint32("id")
+	if kind == 2 {
+		id, pk = 0, 3
+	}
+	params, err := NewParameters(ParametersOpts{KeySizeInBytes: ks, IVSizeInBytes: 12, TagSizeInBytes: 16, Variant: v})
+	verifrt.Assert(err == nil, "NewParameters")
+	k, err := NewKey(secretdata.NewBytesFromData(verifrt.Bytes("key", ks), insecuresecretdataaccess.Token{}), id, params)
+	verifrt.Assert(err == nil, "NewKey")
+	verifh.CheckKeyRoundTrip(k, &keySerializer{}, &keyParser{}, &parametersSerializer{}, &parametersParser{}, pk, id, typeURL, tinkpbSymmetric)
+}
+const tinkpbSymmetric = tinkpb.KeyData_SYMMETRIC
